@@ -116,6 +116,7 @@ fn describe(r: &Res) -> String {
 }
 
 static SCARCE: std::sync::atomic::AtomicBool = std::sync::atomic::AtomicBool::new(false);
+static DEEP_PMTILES: std::sync::atomic::AtomicBool = std::sync::atomic::AtomicBool::new(false);
 
 fn run_case(cx: &CaseCtx, rep: &mut Report) {
 	let mut rng = cx.rng();
@@ -175,8 +176,17 @@ fn run_case(cx: &CaseCtx, rep: &mut Report) {
 				big = true;
 			}
 			let path = dir.join(format!("c.{kind}"));
-			let mut src = MemSource::new(&ts);
-			guard::block_on(write_to_filename(&mut src, path.to_str().unwrap())).map_err(|e| format!("write: {e}"))?;
+			if kind == "pmtiles" && !damaged && rng.chance(0.35) {
+				// an archive from another encoder, three directory levels deep (root -> leaf -> leaf -> tiles)
+				let mut o = crate::codec::ipm::EncOpts::random(&mut rng, ts.tiles.len());
+				o.leaf_levels = 2;
+				o.leaf_size = 12;
+				std::fs::write(&path, crate::codec::ipm::encode(&ts, &o, &mut rng)).map_err(|e| e.to_string())?;
+				DEEP_PMTILES.store(true, Ordering::SeqCst);
+			} else {
+				let mut src = MemSource::new(&ts);
+				guard::block_on(write_to_filename(&mut src, path.to_str().unwrap())).map_err(|e| format!("write: {e}"))?;
+			}
 			if damaged {
 				// the tile index of one block is overwritten with noise: every lookup in that block has to fail, whenever
 				// and by whomever it is issued; the other blocks are untouched
@@ -372,6 +382,9 @@ fn run_case(cx: &CaseCtx, rep: &mut Report) {
 			out
 		}
 	});
+	if DEEP_PMTILES.swap(false, Ordering::SeqCst) {
+		rep.count("cases_on_pmtiles_with_two_leaf_levels", 1);
+	}
 	if SCARCE.swap(false, Ordering::SeqCst) {
 		rep.count("cases_run_with_scarce_file_descriptors", 1);
 	}
